@@ -312,7 +312,7 @@ pub fn run(cx: &Ctx) {
         Ill { xs: vec![1e9, 1e9 + 1.0, 1e9 + 2.0], ys: vec![-1.0, 0.0, 1.0], ws: vec![0.0, 1.0, 1.0], cuts: vec![1], merges: vec![0], path: 0 },
     ], "K1 reproducer and a plain offset triple");
     cx.label("generated");
-    cx.run_pt(&Signs, cx.by(10000, 100000), cx.workers, ill_strategy, "7 kinds of ill-conditioned data x n 1..500 x magnitudes 1e-300..1e150 x merge trees");
+    cx.run_pt(&Signs, cx.by(10000, 600000), cx.workers, ill_strategy, "7 kinds of ill-conditioned data x n 1..500 x magnitudes 1e-300..1e150 x merge trees");
     let counts = || {
         (vec(prop_oneof![2 => Just(0u64), 3 => 0u64..10, 2 => 0u64..100000, 1 => 0u64..(1u64 << 40)], 10), 0u8..4, 0usize..10).prop_map(|(mut counts, mode, keep)| {
             // mode 0: all samples in a single bin (the extreme of the [0, total/4] range)
@@ -324,7 +324,7 @@ pub fn run(cx: &Ctx) {
             Counts { counts }
         })
     };
-    cx.run_pt(&BinVar, cx.by(2000, 20000), cx.workers, counts, "random counts in a 10-bin histogram built through add, *= and merge");
+    cx.run_pt(&BinVar, cx.by(2000, 400000), cx.workers, counts, "random counts in a 10-bin histogram built through add, *= and merge");
 }
 
 pub fn replay(check: &str, case: &serde_json::Value) -> Option<Result<(), String>> {
